@@ -17,7 +17,7 @@ def run(chk):
     walks = cl.random_walks(chk.seed + 8, 3000 if thorough else 300, 6)
     out = cl.run_scenarios(binary, sc + walks, wd, "c08")
     outs, ifl, pfl = cl.validate(chk, out, wd, "c08", shard=600)
-    cl.report(chk, outs, ifl, pfl, {"P08"}, WHAT)
+    cl.report(chk, outs, ifl, pfl, {"P08", "abnormal"}, WHAT)
     chk.cov["traces_validated_against_impl"] = len(outs)
     chk.cov["evaluations"] = len(outs)
     chk.cov["distinct_nontrivial"] = len(sc)
